@@ -4,7 +4,11 @@ package seat_manager
 // itself does not exercise today but realistic changes do). Each runs symbolically and,
 // through the conformance replay, natively: both must agree.
 
-import "github.com/weedbox/pokertable/internal/verifrt"
+import (
+	"encoding/json"
+
+	"github.com/weedbox/pokertable/internal/verifrt"
+)
 
 var vhSelfArr [4]int
 
@@ -29,5 +33,32 @@ func VH_Self_Slice3() {
 	x := append(w, 1, 2)
 	x[0] = 4
 	verifrt.Assert(vhSelfArr[1] != 4, "second append past the limit reallocates too")
+	verifrt.Reach("end")
+}
+
+type vhSelfInner struct {
+	A int    `json:"a"`
+	B string `json:"b"`
+}
+type vhSelfOuter struct {
+	ID    string       `json:"id"`
+	Inner *vhSelfInner `json:"inner"`
+}
+
+// VH_Self_JSONInto: json.Unmarshal into a pointer that is not nil decodes into the
+// existing object (so a struct copy whose pointer field is "re-decoded" still shares it).
+func VH_Self_JSONInto() {
+	live := vhSelfOuter{ID: "x", Inner: &vhSelfInner{A: 1, B: "one"}}
+	enc, err := json.Marshal(live.Inner)
+	verifrt.Assert(err == nil, "marshal")
+	clone := live // struct copy: clone.Inner aliases live.Inner
+	err = json.Unmarshal(enc, &clone.Inner)
+	verifrt.Assert(err == nil, "unmarshal")
+	verifrt.Assert(clone.Inner == live.Inner, "decoding into a non-nil pointer keeps the pointer")
+	clone.Inner.A = 7
+	verifrt.Assert(live.Inner.A == 7, "so the 'clone' still shares the object")
+	var fresh *vhSelfInner
+	err = json.Unmarshal(enc, &fresh)
+	verifrt.Assert(err == nil && fresh != nil && fresh != live.Inner && fresh.A == 1 && fresh.B == "one", "decoding into a nil pointer allocates")
 	verifrt.Reach("end")
 }
